@@ -33,8 +33,7 @@ theorem conditions_group (N : Names) (kvs : Obj) (cs : List Ty) (h : conditions 
     simp at hk; rcases hk with ⟨rfl, _⟩ | ⟨rfl, _⟩ | ⟨rfl, _⟩ <;> simp [manyKeywords]
   have hsub := subMany_of N kvs k hmany ss hl
   have htr : truthy (.arr ss) = true := by cases ss <;> simp_all [truthy]
-  unfold conditions at h
-  simp only at h
+  unfold conditions condGroup at h
   simp at hk
   rcases hk with ⟨rfl, rfl⟩ | ⟨rfl, rfl⟩ | ⟨rfl, rfl⟩
   all_goals
